@@ -125,6 +125,7 @@ func runCheck(args []string) {
 	if *timeoutFlag > 0 {
 		timeout = *timeoutFlag
 	}
+	memWatch()
 	P, err := loadProg(*repo)
 	var loadErr string
 	if err != nil {
